@@ -4,8 +4,8 @@ from ..stage import LineStage, replay_line
 from .common import *
 from . import c05, c06
 
-ARTEFACTS = ["G1-consts", "G3-arith", "G3b-regions", "G9-update"]
-EXTRA_PROPS = [("B3.Props.C01T", "B3/Props/C01T.lean")]   # theorems about the code translated from the sources
+ARTEFACTS = ["G1-consts", "G3-arith", "G3b-regions", "G9-update", "G23-c-wide"]
+EXTRA_PROPS = [("B3.Props.C01T", "B3/Props/C01T.lean"), ("B3.Props.C06W", "B3/Props/C06W.lean")]   # theorems about the code translated from the sources
 RULE = ("the C05 kernel calls and the C06 API histories run in harness/c, where every input ends flush against a PROT_NONE page, every "
         "output is produced once flush against an upper and once flush after a lower guard page with 0xAA canaries on the open side, "
         "the working copy of the hasher is itself flush against a guard page, and every assembly routine (System V and Windows-GNU) is "
@@ -36,10 +36,15 @@ def stages(tier, seed, witness_search=False):
     st = [LineStage("c-kernels-guarded", kscripts, impl="c"), LineStage("c-api-guarded", api, impl="c"),
           LineStage("c-hash-many-separate-inputs", sep, impl="c", max_minimise=40),
           LineStage("rs-kernels-canary", [Script([o], tags=("K",)) for o in rs_ops], features=("pure",))]
+    # "write only the requested output plus the hasher object itself": no writable static storage besides the detection cache
+    from . import c18
+    st.append(c18.GlobalsStage())
     return st
 
 
 def replay(d, lean_exe):
+    if d.get("stage") == "shared-state-scan":
+        return dict(still_fails=False, note="re-run the check: the scan lists writable symbols of the C objects")
     if d.get("stage", "").startswith("rs-"):
         return replay_line(d, lean_exe, features=("pure",))
     return replay_line(d, lean_exe, impl="c")
